@@ -193,10 +193,11 @@ func genC07(t *testing.T) {
 						}
 						for j, d := range pick {
 							sc := ds[d]
-							if (k+j)%2 == 0 { // the producer never closes: only the end game does, after the fail-fast check
+							partial := st == "FMap" && (k+j)%3 == 0 // the failing arrows emit part of their output first
+							if (k+j)%2 == 0 {                       // the producer never closes: only the end game does, after the fail-fast check
 								sc = slices.DeleteFunc(slices.Clone(sc), func(m string) bool { return m[0] == 'C' })
 							}
-							run(&caseT{Site: st + "/" + mode, Stage: st, Cap: cp, Mode: mode, Inputs: [][]int{in}, Fail: fail, FSeed: uint64(k % 97), Script: sc, End: "complete", Tick: tick})
+							run(&caseT{Site: st + "/" + mode, Stage: st, Cap: cp, Mode: mode, Inputs: [][]int{in}, Fail: fail, FSeed: uint64(k % 97), Script: sc, End: "complete", Tick: tick, Partial: partial})
 						}
 					}
 				}
@@ -252,6 +253,6 @@ func genC07(t *testing.T) {
 		if r.IntN(2) == 0 {
 			sc = slices.DeleteFunc(slices.Clone(sc), func(m string) bool { return m[0] == 'C' })
 		}
-		run(&caseT{Site: st + "/" + mode, Stage: st, Cap: wide(r, 9, 16, 64), Mode: mode, Inputs: [][]int{in}, Fail: fail, FSeed: r.Uint64() % 1000, Script: sc, End: "complete", Tick: tick})
+		run(&caseT{Site: st + "/" + mode, Stage: st, Cap: wide(r, 9, 16, 64), Mode: mode, Inputs: [][]int{in}, Fail: fail, FSeed: r.Uint64() % 1000, Script: sc, End: "complete", Tick: tick, Partial: st == "FMap" && r.IntN(2) == 0})
 	}
 }
